@@ -103,7 +103,7 @@ MANIFEST = {
             "multi-sample and multistart decoding: per step and row, the returned log-prob equals the float64 "
             "recomputation from the tapped decoder logits for the action actually taken; forced starts and padding "
             "contribute zero; entropy and sums agree; evaluate(actions) reproduces per-step log-probs, reward and entropy. "
-            "Exploration over policies x envs x decode configurations x batches.",
+            "Exploration over policies x envs x decode configurations x batches. Also: MoE policies, AM with the library's own attention function, AM on DPP/MDPP, the non-autoregressive heat-map machinery, train-mode rollouts, mini-batch evaluation round trips (PPO rows), best-of-k round trips on state-read-reward envs, the stage pairing of MatNet's multi-stage FFSP policy, models decoding instances of another size.",
     "note": "Taps are attached from the harness; zero tap hits make the check inconclusive.",
     "technique": "runtime monitoring: taps on decoder output and decoding strategy, per-step reference-distribution oracle, evaluate round-trip replay",
     "design_ref": "DESIGN.md section 4 / C11",
